@@ -83,6 +83,25 @@ Proof.
   apply IH; [apply Hput; [exact Hs|lia]|lia].
 Qed.
 
+Lemma row_fold_gen_from {St} (G : St -> Z -> prog St) (f : label -> prog label) (put : St -> nat -> label -> St)
+      (I : St -> Prop) (a : list label) (lo hi : nat) :
+  (hi <= length a)%nat ->
+  (forall s j g, I s -> (lo <= j < hi)%nat -> I (put s j g)) ->
+  (forall s j, (lo <= j < hi)%nat -> I s ->
+     peq (G s (Z.of_nat j)) (bdo g <- f (nth j a ""%string); Ret (put s j g))) ->
+  forall k j s, (lo <= j)%nat -> (j + k = hi)%nat -> I s ->
+  peq (foldP G (map Z.of_nat (seq j k)) s)
+      (bdo row <- mapP f (firstn k (skipn j a)); Ret (put_row put s j row)).
+Proof.
+  intros Hhi Hput HG. induction k as [|k IH]; intros j s Hlo Hj Hs fresh st.
+  - cbn [seq map foldP firstn mapP]. rs. reflexivity.
+  - rewrite (skipn_nth a j ""%string) by lia. cbn [seq map foldP firstn mapP]. rs.
+    rewrite HG by first [lia | exact Hs]. rs.
+    destruct (run fresh (f (nth j a ""%string)) st) as [[g s1]|e]; rs; [|reflexivity].
+    rewrite IH by first [lia | apply Hput; [exact Hs|lia]]. rs.
+    destruct (run fresh (mapP f (firstn k (skipn (S j) a))) s1) as [[row s2]|e]; rs; reflexivity.
+Qed.
+
 Lemma row_fold_gen {St} (G : St -> Z -> prog St) (f : label -> prog label) (put : St -> nat -> label -> St)
       (I : St -> Prop) (a : list label) (hi : nat) :
   (hi <= length a)%nat ->
@@ -93,13 +112,10 @@ Lemma row_fold_gen {St} (G : St -> Z -> prog St) (f : label -> prog label) (put 
   peq (foldP G (map Z.of_nat (seq j k)) s)
       (bdo row <- mapP f (firstn k (skipn j a)); Ret (put_row put s j row)).
 Proof.
-  intros Hhi Hput HG. induction k as [|k IH]; intros j s Hj Hs fresh st.
-  - cbn [seq map foldP firstn mapP]. rs. reflexivity.
-  - rewrite (skipn_nth a j ""%string) by lia. cbn [seq map foldP firstn mapP]. rs.
-    rewrite HG by first [lia | exact Hs]. rs.
-    destruct (run fresh (f (nth j a ""%string)) st) as [[g s1]|e]; rs; [|reflexivity].
-    rewrite IH by first [lia | apply Hput; [exact Hs|lia]]. rs.
-    destruct (run fresh (mapP f (firstn k (skipn (S j) a))) s1) as [[row s2]|e]; rs; reflexivity.
+  intros Hhi Hput HG k j s Hj Hs.
+  apply (row_fold_gen_from G f put I a 0 hi Hhi); try assumption; try lia.
+  - intros s' j' g Hs' Hj'. apply Hput; [exact Hs'|lia].
+  - intros s' j' Hj' Hs'. apply HG; [lia|exact Hs'].
 Qed.
 
 (* ---- the matrix loop: for i in range(i0, i0 + k): s = <row loop i>(s) ------------------------------------ *)
@@ -146,8 +162,8 @@ Lemma is_matrix_upd {A} m n (c : list (list A)) i row :
   is_matrix m n c -> length row = n -> is_matrix m n (upd c i row).
 Proof. intros [Hl Hf] Hr. split; [rewrite upd_length; exact Hl|apply Forall_upd; assumption]. Qed.
 
-Lemma placeholder_matrix m n :
-  is_matrix m n (map (fun _ : Z => py_mul [PLACEHOLDER_STR] (Z.of_nat n)) (py_range 0 (Z.of_nat m))).
+Lemma placeholder_matrix {A} (x : A) m n :
+  is_matrix m n (map (fun _ : Z => py_mul [x] (Z.of_nat n)) (py_range 0 (Z.of_nat m))).
 Proof.
   split.
   - rewrite map_length. unfold py_range. rewrite map_length, seq_length. lia.
@@ -215,3 +231,23 @@ Ltac crunch :=
               end
           | |- context [if ?c then _ else _] => destruct c
           end); rs; try reflexivity.
+
+(* ---- the matrix loop when the row program depends on the index (triangular loops) ------------------------------ *)
+Lemma rows_fold_idx {St} (F : St -> Z -> prog St) (rowp : nat -> prog (list label)) (putr : St -> nat -> list label -> St)
+      (I : nat -> St -> Prop) (Q : nat -> list label -> Prop) (hi : nat) :
+  (forall i, returns (rowp i) (Q i)) ->
+  (forall s i row, I i s -> (i < hi)%nat -> Q i row -> I (S i) (putr s i row)) ->
+  (forall s i, (i < hi)%nat -> I i s ->
+     peq (F s (Z.of_nat i)) (bdo row <- rowp i; Ret (putr s i row))) ->
+  forall k i s, (i + k = hi)%nat -> I i s ->
+  peq (foldP F (map Z.of_nat (seq i k)) s)
+      (bdo rows <- mapP rowp (seq i k); Ret (put_rows putr s i rows)).
+Proof.
+  intros HQ Hput HF. induction k as [|k IH]; intros i s Hi Hs fresh st.
+  - cbn [seq map foldP mapP]. rs. reflexivity.
+  - cbn [seq map foldP mapP]. rs.
+    rewrite HF by first [lia | exact Hs]. rs.
+    destruct (run fresh (rowp i) st) as [[row s1]|e] eqn:E; rs; [|reflexivity].
+    rewrite IH by first [lia | apply Hput; [exact Hs|lia|eapply HQ; exact E]]. rs.
+    destruct (run fresh (mapP rowp (seq (S i) k)) s1) as [[rows s2]|e]; rs; reflexivity.
+Qed.
